@@ -348,7 +348,7 @@ Fixpoint iter (fuel : nat) (d : N) (s : st) : list event * list N * st * bool :=
   | [] => ([], [], s, false)
   | _ =>
     match fuel with
-    | O => ([], [], s, true)                                 (* never reached: Attach_proofs.iter_fuel *)
+    | O => ([], [], s, true)                                 (* never reached from feed: Attach_proofs.iter_fuel *)
     | S f =>
       match step d s with
       | O_more => ([], [], s, false)
@@ -527,11 +527,23 @@ Definition ctrl_okb (d : N) (f : list N) : bool :=
   | _ => false
   end.
 
+(* the file a 0x1212 frame reports as finished *)
+Definition named_1212 (d : N) (f : list N) : list name :=
+  match decode f with
+  | Ok m => if m_id m =? ID_1212 then match parse1211 (m_body m) with Ok t => [f_name t] | _ => [] end else []
+  | _ => []
+  end.
+
+(* chunks and completion reports (0x1212) only of files announced before them (a 0x1212 naming a file the
+   connection never announced is answered with whatever retransmit list the handler holds from an earlier
+   0x1212: the code's behaviour, modelled, outside what an upload is) *)
 Fixpoint upload_ok (d : N) (known : list name) (its : list item) : bool :=
   match its with
   | [] => true
   | I_chunk nm _ _ :: t => existsb (name_eqb nm) known && upload_ok d known t
-  | I_frame f :: t => ctrl_okb d f && upload_ok d (map fst (announced d f) ++ known) t
+  | I_frame f :: t =>
+    ctrl_okb d f && forallb (fun nm => existsb (name_eqb nm) known) (named_1212 d f) &&
+    upload_ok d (map fst (announced d f) ++ known) t
   end.
 
 (* ---------------- the default file handler at the end of the connection (file_event.go) -------- *)
